@@ -182,12 +182,19 @@ func SuccessExits(fn *ssa.Function) []ssa.Instruction {
 	return out
 }
 
-// EdgeFact: the canonical condition that holds when control takes Block→Succs[Idx].
+// EdgeFact: the canonical condition that holds when control takes Block→Succs[Idx]
+// (having entered Block from Pred, when the condition is a φ of booleans computed in Block:
+// the lowering of `c := a && b; if c` — then the fact depends on where control came from).
 type EdgeFact struct {
 	Block *ssa.BasicBlock
 	Idx   int
 	Fact  string
+	Pred  *ssa.BasicBlock // nil: any predecessor
 }
+
+func (e EdgeFact) Key() edgeKey { return edgeKey{e.Block, e.Idx, e.Pred} }
+
+const infeasible = "⊥"
 
 var cmpRe = regexp.MustCompile(`^\((.*) (==|!=|<|<=) (.*)\)$`)
 
@@ -195,24 +202,13 @@ var cmpRe = regexp.MustCompile(`^\((.*) (==|!=|<|<=) (.*)\)$`)
 func negateFact(r *Renderer, cond ssa.Value) string {
 	switch x := cond.(type) {
 	case *ssa.BinOp:
-		a, b := r.E(x.X), r.E(x.Y)
 		switch x.Op {
-		case token.EQL:
-			return r.binop(token.NEQ, a, b)
-		case token.NEQ:
-			return r.binop(token.EQL, a, b)
-		case token.LSS: // !(a<b) = b<=a
-			return r.binop(token.LEQ, b, a)
-		case token.LEQ:
-			return r.binop(token.LSS, b, a)
-		case token.GTR: // !(a>b) = a<=b
-			return r.binop(token.LEQ, a, b)
-		case token.GEQ:
-			return r.binop(token.LSS, a, b)
+		case token.EQL, token.NEQ, token.LSS, token.LEQ, token.GTR, token.GEQ:
+			return r.cmp(negOp(x.Op), x.X, x.Y)
 		}
 	case *ssa.UnOp:
 		if x.Op == token.NOT {
-			return r.E(x.X)
+			return posFact(r, x.X)
 		}
 	}
 	return "!" + r.E(cond)
@@ -223,6 +219,22 @@ func posFact(r *Renderer, cond ssa.Value) string {
 		return negateFact(r, x.X)
 	}
 	return r.E(cond)
+}
+
+// boolPhiCond: the If condition of b is a φ of booleans defined in b itself.
+func boolPhiCond(b *ssa.BasicBlock) *ssa.Phi {
+	if len(b.Instrs) == 0 {
+		return nil
+	}
+	iff, ok := b.Instrs[len(b.Instrs)-1].(*ssa.If)
+	if !ok {
+		return nil
+	}
+	ph, ok := iff.Cond.(*ssa.Phi)
+	if !ok || ph.Block() != b {
+		return nil
+	}
+	return ph
 }
 
 // EdgeFacts lists both outgoing facts of every If in fn.
@@ -237,14 +249,33 @@ func (p *Prog) EdgeFacts(fn *ssa.Function) []EdgeFact {
 		if !ok {
 			continue
 		}
-		out = append(out, EdgeFact{b, 0, posFact(r, iff.Cond)}, EdgeFact{b, 1, negateFact(r, iff.Cond)})
+		if ph := boolPhiCond(b); ph != nil {
+			for k, e := range ph.Edges {
+				pred := b.Preds[k]
+				if c, ok := e.(*ssa.Const); ok && c.Value != nil {
+					// coming from pred the condition is a constant: one successor is infeasible
+					if c.Value.String() == "true" {
+						out = append(out, EdgeFact{b, 1, infeasible, pred})
+					} else {
+						out = append(out, EdgeFact{b, 0, infeasible, pred})
+					}
+					continue
+				}
+				out = append(out, EdgeFact{b, 0, posFact(r, e), pred}, EdgeFact{b, 1, negateFact(r, e), pred})
+			}
+			// the φ as a whole is also a fact (for rules that name the combined condition)
+			out = append(out, EdgeFact{b, 0, posFact(r, iff.Cond), nil}, EdgeFact{b, 1, negateFact(r, iff.Cond), nil})
+			continue
+		}
+		out = append(out, EdgeFact{b, 0, posFact(r, iff.Cond), nil}, EdgeFact{b, 1, negateFact(r, iff.Cond), nil})
 	}
 	return out
 }
 
 type edgeKey struct {
-	b *ssa.BasicBlock
-	i int
+	b    *ssa.BasicBlock
+	i    int
+	pred *ssa.BasicBlock
 }
 
 // PathSearch finds a path from `from` (nil: function entry) to any target
@@ -261,7 +292,31 @@ type PathSearch struct {
 
 type pathStep struct {
 	b    *ssa.BasicBlock
+	from *ssa.BasicBlock // predecessor we came from (only kept for blocks branching on a boolean φ)
 	prev *pathStep
+}
+
+type visitKey struct{ b, from *ssa.BasicBlock }
+
+// infeasibleEdges: (pred, block, succ) triples excluded because the branch condition is a constant on that path.
+func infeasibleEdges(fn *ssa.Function) map[edgeKey]bool {
+	m := map[edgeKey]bool{}
+	for _, b := range fn.Blocks {
+		ph := boolPhiCond(b)
+		if ph == nil {
+			continue
+		}
+		for k, e := range ph.Edges {
+			if c, ok := e.(*ssa.Const); ok && c.Value != nil {
+				if c.Value.String() == "true" {
+					m[edgeKey{b, 1, b.Preds[k]}] = true
+				} else {
+					m[edgeKey{b, 0, b.Preds[k]}] = true
+				}
+			}
+		}
+	}
+	return m
 }
 
 // Find returns (target instruction, path blocks) or (nil, nil).
@@ -269,6 +324,7 @@ func (s *PathSearch) Find() (ssa.Instruction, []*ssa.BasicBlock) {
 	if len(s.Fn.Blocks) == 0 {
 		return nil, nil
 	}
+	infeas := infeasibleEdges(s.Fn)
 	scan := func(b *ssa.BasicBlock, start int) (ssa.Instruction, bool) {
 		// returns (target, blocked)
 		for i := start; i < len(b.Instrs); i++ {
@@ -282,7 +338,7 @@ func (s *PathSearch) Find() (ssa.Instruction, []*ssa.BasicBlock) {
 		}
 		return nil, false
 	}
-	visited := map[*ssa.BasicBlock]bool{}
+	visited := map[visitKey]bool{}
 	var queue []*pathStep
 	startBlock := s.Fn.Blocks[0]
 	startIdx := 0
@@ -297,20 +353,30 @@ func (s *PathSearch) Find() (ssa.Instruction, []*ssa.BasicBlock) {
 		queue = append(queue, first)
 	}
 	if s.From == nil {
-		visited[startBlock] = true
+		visited[visitKey{startBlock, nil}] = true
 	}
 	for len(queue) > 0 {
 		cur := queue[0]
 		queue = queue[1:]
 		for i, succ := range cur.b.Succs {
-			if s.AvoidEdges[edgeKey{cur.b, i}] {
+			// edge avoidance: wildcard predecessor or the predecessor we came through
+			if s.AvoidEdges[edgeKey{cur.b, i, nil}] {
 				continue
 			}
-			if visited[succ] {
+			if cur.from != nil && (s.AvoidEdges[edgeKey{cur.b, i, cur.from}] || infeas[edgeKey{cur.b, i, cur.from}]) {
 				continue
 			}
-			visited[succ] = true
-			st := &pathStep{b: succ, prev: cur}
+			vk := visitKey{succ, nil}
+			var from *ssa.BasicBlock
+			if boolPhiCond(succ) != nil {
+				from = cur.b
+				vk = visitKey{succ, cur.b}
+			}
+			if visited[vk] {
+				continue
+			}
+			visited[vk] = true
+			st := &pathStep{b: succ, from: from, prev: cur}
 			t, blocked := scan(succ, 0)
 			if t != nil {
 				var path []*ssa.BasicBlock
